@@ -488,6 +488,7 @@ func init() {
 		Rule: "part A: generator files (cycling: all SECs / each single SEC incl. IAT and ADV; all categories; ASCII, Latin-1, full-width, Latin-1+risky shapes, large files; " +
 			"1/32 with empty FileCreationTime) x writer line ending LF/CRLF x 15 layouts (lf, crlf, cr, stream, trimmed, blank-lines, blank-lines-spaces, no-filler, extra-filler, and the combinations trimmed x {cr,crlf,lf}, mixed endings per record, trimmed + mixed endings, no-filler + trimmed + cr): " +
 			"write, re-lay-out, read, compare tree shape and every record's String(), write again, compare bytes with the first text. " +
+			"part A2: CTX files holding an entry with 1000..1400 Addenda05 records (four-digit addenda sequence numbers; quick 2, thorough 8 files) through the same check under two layouts. " +
 			"part B (fixed point): every corpus text and lightly mutated corpus/generator texts that the Reader accepts and that validate are put through the same check. " +
 			"distinct = distinct (layout, writer line ending, file description without id); non-trivial = the layout changed the text (identity layouts always count) / the Reader accepted the text and the file validates",
 		Run: run,
@@ -518,6 +519,47 @@ func run(t *T) {
 			tag += "+empty-time"
 		}
 		checkFile(f, "roundtrip", "gen", []string{lf, crlf}, allLayouts, r.Fork(7), map[string]any{"generator": tag}, res)
+		return res
+	}))
+
+	// ---- part A2: entries with 1000+ Addenda05 records (four-digit sequence numbers; CTX/TRX/ENR allow 9999) ----
+	nWide := 2
+	if t.Tier == "thorough" {
+		nWide = 8
+	}
+	rw := t.R.Fork(0xA2)
+	rsW := make([]*gen.Rand, nWide)
+	for i := range rsW {
+		rsW[i] = rw.Fork(uint64(i))
+	}
+	replay(t, parallel(nWide, func(i int) *result {
+		res := &result{}
+		r := rsW[i]
+		o := gen.Opts{SECs: []string{"CTX"}, MaxBatches: 1, MaxEntries: 2, MaxAddenda: 1400}
+		var f *ach.File
+		most := 0
+		for try := 0; try < 40 && most < 1000; try++ {
+			g, err := safeGen(r.Fork(uint64(100+try)), o)
+			if err != nil {
+				continue
+			}
+			m := 0
+			for _, b := range g.Batches {
+				for _, e := range b.GetEntries() {
+					if len(e.Addenda05) > m {
+						m = len(e.Addenda05)
+					}
+				}
+			}
+			if m > most {
+				f, most = g, m
+			}
+		}
+		if f == nil || most < 1000 {
+			res.cases = append(res.cases, caseRec{"", "gen/many-addenda/none-drawn", false})
+			return res
+		}
+		checkFile(f, "roundtrip", "gen", []string{lf, crlf}, allLayouts[:2], r.Fork(7), map[string]any{"generator": fmt.Sprintf("many-addenda (%d on one entry)", most)}, res)
 		return res
 	}))
 
